@@ -147,11 +147,16 @@ fn pass_2_internal(segment: &Segment, common_context: &CommonContext) -> Result<
                     code_fragment.push(0x0);
                 }
             }
-            Item::Def(alias, Expr::Ident(register)) => {
-                if let Some(_) = common_context.set_def(
-                    alias.to_lowercase(),
-                    Reg8::from_str(register.to_lowercase().as_str()).unwrap(),
-                ) {
+            Item::Def(alias, register) => {
+                let register = match register {
+                    Expr::Ident(name) => Reg8::from_str(name.to_lowercase().as_str()).ok(),
+                    _ => None,
+                };
+                let register = match register {
+                    Some(register) => register,
+                    None => bail!("{} must be defined as a register (r0 - r31), {}", alias, line),
+                };
+                if let Some(_) = common_context.set_def(alias.to_lowercase(), register) {
                     // TODO: add display current string of mistake and previous location
                     bail!("Identifier {} is used twice, {}", alias, line);
                 }
